@@ -7,6 +7,8 @@
 //                                interleaved with a decoy string; prints the forward answers and whether all rounds agreed
 //   xsd   <pat> <strs>           xs:pattern facet on an xs:string restriction; validity of <r>s</r> for each s
 //   rng   <op> <A> <B>           range algebra through RangeToken's internal API
+//   prep  <opts> <pat>           what RegularExpression::prepare computed: fMinLength and the ranges of fFirstChar
+//                                ("-" = no head-character set)   -> ok <minlen> <ranges as hex6 pairs | - | e>
 // <pat>, every string: groups of 6 hex digits (code points), "-" = empty.  <strs>: comma separated, "." = none.
 // <A>,<B>: an optional leading 'n' (NRANGE token) then groups of 6 hex digits, pairs (lo hi), added with addRange in order.
 #include "xh_common.hpp"
@@ -68,9 +70,16 @@ static std::string excName(const XMLException& e) {
 }
 
 // compile; returns 0 and sets err on failure
-static RegularExpression* compileRe(const U16& pat, const U16& opts, std::string& err) {
+// fMinLength / fFirstChar are protected members
+struct RePeek : public RegularExpression {
+    RePeek(const XMLCh* p, const XMLCh* o) : RegularExpression(p, o) {}
+    XMLSize_t minLen() const { return fMinLength; }
+    RangeToken* firstChar() const { return fFirstChar; }
+};
+
+template <class RE> static RE* compileReT(const U16& pat, const U16& opts, std::string& err) {
     try {
-        return new RegularExpression(pat.data(), opts.data());
+        return new RE(pat.data(), opts.data());
     } catch (const ParseException&) {
         err = "parse-error";
     } catch (const XMLException& e) {
@@ -85,6 +94,9 @@ static RegularExpression* compileRe(const U16& pat, const U16& opts, std::string
         err = "exc unknown";
     }
     return 0;
+}
+static RegularExpression* compileRe(const U16& pat, const U16& opts, std::string& err) {
+    return compileReT<RegularExpression>(pat, opts, err);
 }
 
 // A runaway recursion of RegularExpression::match ends in a stack overflow (SIGSEGV).  The handler runs on an
@@ -475,6 +487,22 @@ static std::string doNamed(const std::string& k) {
     return "ok " + std::string(t->fSorted ? "1" : "0") + (t->fCompacted ? "1 " : "0 ") + dumpRange(t);
 }
 
+// prep <opts> <pat>: the pre-filter data of a compiled expression (private members fMinLength, fFirstChar)
+static std::string doPrep(const std::string& opts, const std::string& pat) {
+    std::vector<uint32_t> o;
+    for (char c : opts) if (c != '-') o.push_back((unsigned char)c);
+    std::string err;
+    std::unique_ptr<RePeek> re(compileReT<RePeek>(toU16(parseHex(pat, 6)), toU16(o), err));
+    if (!re) return err;
+    std::string r = "ok " + std::to_string((unsigned long)re->minLen()) + " ";
+    RangeToken* fc = re->firstChar();
+    if (!fc) return r + "-";
+    if (!fc->fRanges || fc->fElemCount == 0) return r + "e";
+    std::vector<uint32_t> v;
+    for (unsigned i = 0; i < fc->fElemCount; i++) v.push_back((uint32_t)fc->fRanges[i]);
+    return r + showHex(v.data(), v.size(), 6);
+}
+
 int main() {
     XMLPlatformUtils::Initialize();
     installSegvHandler();
@@ -489,6 +517,7 @@ int main() {
         else if (a.size() == 3 && a[0] == "tok") r = doTok(a[1], a[2]);
         else if (a.size() == 2 && a[0] == "named") r = doNamed(a[1]);
         else if (a.size() == 4 && a[0] == "rng") r = doRng(a[1], a[2], a[3]);
+        else if (a.size() == 3 && a[0] == "prep") r = doPrep(a[1], a[2]);
         std::cout << r << "\n";
     }
     std::cout.flush();
